@@ -398,6 +398,10 @@ static int run_session(Case *cs, int pass /*0 single, 1 first, 2 second*/, Stats
             else if (*c == 's') { g_where = "sleep"; usleep(1000); g_progress++; }
             else if (*c == 'S') { g_where = "sleep"; usleep(5000); g_progress++; }
             else if (*c == 'u') { g_where = "sleep"; usleep(100); g_progress++; }
+            else if (*c == 'I') { /* live pacing: wait until the encoder has gone quiet (no new packet for 40 ms), at most 1.5 s */
+                double t0_ = now_ms();
+                for (;;) { int n0_ = npk; g_where = "sleep"; usleep(40000); g_progress++; POLL_PACKETS(-1, 0); POLL_RECON(); if (npk == n0_ || now_ms() - t0_ > 1500) break; }
+            }
         }
     }
     int early = (cs->stop_after >= 0);
